@@ -165,3 +165,49 @@ func Harness_C10_stream_read_large() {
 	verif_Assert("C10.srl.content", verif_BytesEq(got, want))
 	verif_Cover("C10.srl.done")
 }
+
+// A pooled connection carries one tunnel after the other: everything tunnel A sent up to its
+// end-of-stream frame goes to A's stream, and the stream created for tunnel B on the same
+// connection afterwards gets exactly B's bytes - also when B's frames were already waiting in the
+// socket while A was still being read (all frames are on the wire before the first read).
+func Harness_C10_sequential_streams() {
+	var a, b [16]byte
+	for i := range a {
+		a[i] = byte('a' + i)
+		b[i] = byte('A' + i)
+	}
+	wire := &verifSink{}
+	na := verif_IntRange(0, verif_Bound("payload"))
+	da := verif_Bytes(na)
+	nb := verif_IntRange(1, verif_Bound("payload"))
+	db := verif_Bytes(nb)
+	endA := []byte{FrameTypeEOF, FrameTypeClose}[verif_Choose(2)]
+	ok := true
+	if na > 0 {
+		ok = WriteFrameToWriter(wire, a, FrameTypeData, da) == nil
+	}
+	ok = ok && WriteFrameToWriter(wire, a, endA, nil) == nil
+	ok = ok && WriteFrameToWriter(wire, b, FrameTypeData, db) == nil && WriteFrameToWriter(wire, b, FrameTypeEOF, nil) == nil
+	verif_Assert("C10.seq.encode", ok)
+	tcp := verif_TCPConn(&verifReader{Data: wire.Buf}, &verifSink{})
+	conn := &Conn{tcpConn: tcp}
+	read := func(fs *FrameStream) []byte {
+		var got []byte
+		p := make([]byte, 8)
+		for r := 0; r < 8; r++ {
+			n, err := fs.Read(p)
+			got = append(got, p[:n]...)
+			if err != nil {
+				verif_Assert("C10.seq.err_is_eof", err == io.EOF)
+				break
+			}
+		}
+		return got
+	}
+	gotA := read(NewFrameStream(conn, a))
+	verif_Assert("C10.seq.first_tunnel", len(gotA) == na && verif_BytesEq(gotA, da))
+	gotB := read(NewFrameStream(conn, b))
+	verif_Assert("C10.seq.second_tunnel_complete", len(gotB) == nb)
+	verif_Assert("C10.seq.second_tunnel_bytes", verif_BytesEq(gotB, db))
+	verif_Cover("C10.seq.done")
+}
